@@ -149,7 +149,7 @@ impl Prop for C08 {
             ph("boundary set (leap / century years x month ends x offsets)", 10),
             ph(tier.pick("random (date, offset, roll) triples", "every start date 1970-2200 x offsets x roll kinds"), tier.pick(300, 231)),
             ph("get_imm / get_eom / is_imm / is_eom / is_leap_year / get_roll", 1),
-            ph("adjusting modifiers on the calendar zoo", tier.pick(40, 500)),
+            ph("adjusting modifiers on the calendar zoo", tier.pick(40, 3000)),
         ]
     }
     fn required_classes(&self, _tier: Tier) -> Vec<String> {
